@@ -10,7 +10,7 @@ Campaign (implementation in worker processes, model inside Coq through Corr/C14J
     thorough: every single-bit mask) -> the load must raise or give back the original, never another array, never
     hang or crash the process.
 Violations of the known kinds carry the name of the failed domain clause (D9_gcxs_1d, D9_csr_csc_subclass,
-NB_shape_fits_coords_dtype); everything else is reported without clause as a new violation."""
+NB_shape_fits_coords_dtype, NB_construct_shape_type); everything else is reported without clause as a new violation."""
 import itertools
 import json
 import os
@@ -46,7 +46,7 @@ ASSUMPTIONS = [
 
 DTYPES = ["int8", "int16", "int32", "int64", "uint8", "uint16", "uint32", "uint64",
           "float32", "float64", "complex64", "complex128", "bool"]
-CLAUSES = {0: "D9_gcxs_1d", 1: "D9_csr_csc_subclass", 2: "NB_shape_fits_coords_dtype"}
+CLAUSES = {0: "D9_gcxs_1d", 1: "D9_csr_csc_subclass", 2: "NB_shape_fits_coords_dtype", 3: "NB_construct_shape_type"}
 KCODE = {"COO": 0, "GCXS": 1, "CSR": 2, "CSC": 3}
 EXC_CODE = {"ValueError": 1, "RuntimeError": 2, "TypeError": 3, "IndexError": 4}
 
@@ -78,14 +78,17 @@ def make_array(spec):
     if spec.get("raw"):
         # COO given by explicit coordinates in a narrow index dtype (no can_store check on this path)
         r = spec["raw"]
-        coords = np.array(r["coords"], dtype=r["idx"]).reshape(len(shape), -1)
+        coords = (np.array(r["coords"], dtype=r["idx"]).reshape(len(shape), -1) if shape
+                  else np.zeros((0, len(r["data"])), dtype=r["idx"]))
         data = np.array(r["data"], dtype=dt)
         return sparse.COO(coords, data, shape=shape, fill_value=fv)
     rng = np.random.default_rng(spec["seed"])
     size = int(np.prod(shape, dtype=np.int64))
     dense = np.full(shape, fv, dtype=dt)
     pat = spec["pattern"]
-    if pat != "empty" and size:
+    if "dense" in spec:
+        dense = np.array(spec["dense"], dtype=dt).reshape(shape)
+    elif pat != "empty" and size:
         k = size if pat == "full" else max(1, size // 3)
         pos = rng.choice(size, k, replace=False)
         if dt.kind == "b":
@@ -227,7 +230,7 @@ def impl_numba(spec):
     res = {"in": fields(x), "ops": {}, "bits": x.coords.dtype.itemsize * 8, "signed": x.coords.dtype.kind == "i"}
     o, y = outcome_of(lambda: _NB["ident"](x))
     res["ops"]["numba_identity"] = o
-    if spec["fill"] == "0" and not spec.get("raw"):
+    if spec["fill"] == "0":
         o, y = outcome_of(lambda: _NB["construct"](x.coords, x.data, x.shape))
         res["ops"]["numba_construct"] = o
     return res
@@ -309,6 +312,24 @@ def impl_fault(case):
 
 
 # =========================================================================== generation (driver)
+# the witnesses of the ..._refuted theorems (Proofs/NpzP.v), replayed literally: (theorem, spec, operation, verdict code)
+def _w(fmt, shape, dense, axes):
+    return {"fmt": fmt, "shape": shape, "axes": axes, "pattern": "dense", "dense": dense, "dtype": "int64", "fill": "0", "seed": 0}
+
+
+WITNESSES = [
+    ("npz_roundtrip_refuted_gcxs_1d", _w("gcxs", [6], [0, 5, 6, 0, 0, 0], None), "npz_c", 10),
+    ("npz_roundtrip_refuted_csr", _w("csr", [2, 3], [[0, 5, 0], [0, 0, 6]], [0]), "npz_c", 11),
+    ("npz_roundtrip_refuted_csc", _w("csc", [2, 3], [[0, 5, 0], [0, 0, 6]], [1]), "npz_u", 11),
+    ("numba_boxing_roundtrip_refuted",
+     {"fmt": "coo", "shape": [300], "axes": None, "pattern": "raw", "dtype": "int64", "fill": "0", "seed": 0,
+      "raw": {"idx": "int8", "coords": [[0, 1]], "data": [5, 6]}}, "numba_identity", 12),
+    ("numba_construct_refuted",
+     {"fmt": "coo", "shape": [], "axes": None, "pattern": "raw", "dtype": "int64", "fill": "0", "seed": 0,
+      "raw": {"idx": "int64", "coords": [], "data": [7]}}, "numba_construct", 13),
+]
+
+
 def axes_subsets(nd):
     return [list(c) for r in range(1, nd) for c in itertools.combinations(range(nd), r)]
 
@@ -357,6 +378,7 @@ def gen_specs(tier, rng):
                 if nd == 2:
                     add("csr", sh, [0], pat)             # clause D9_csr_csc_subclass
                     add("csc", sh, [1], pat)
+    specs.extend(w[1] for w in WITNESSES if not w[2].startswith("numba"))
     # the full dtype x fill table on one 2-d shape, COO and GCXS (both axes)
     for d, f in combos:
         for fmt, ax in (("coo", None), ("gcxs", [0]), ("gcxs", [1])):
@@ -389,6 +411,9 @@ def gen_numba_specs(tier, rng, specs):
            ("uint8", [300], [[0, 3]]), ("uint8", [256], [[]]), ("int16", [3, 40000], [[0, 2], [5, 30000]]),
            ("int16", [2, 32767], [[0, 1], [5, 30000]]), ("uint16", [65536, 2], [[0, 70], [0, 1]]),
            ("int32", [5, 7], [[0, 4], [1, 6]]), ("uint64", [5, 7], [[0, 4], [1, 6]]), ("int8", [2, 3, 300], [[0, 1], [1, 2], [0, 9]])]
+    for pat in ("empty", "full"):
+        out.append({"fmt": "coo", "shape": [], "axes": None, "pattern": pat, "dtype": "int64", "fill": "0", "seed": 11})
+    out.extend(w[1] for w in WITNESSES if w[2].startswith("numba"))
     for idx, shape, coords in raw:
         n = len(coords[0])
         out.append({"fmt": "coo", "shape": shape, "axes": None, "pattern": "raw", "dtype": "int64", "fill": "0", "seed": 0,
@@ -409,8 +434,8 @@ def gen_fault_files(tier, rng):
     # members larger than zipfile's read-ahead (4096 bytes): the CRC of a member is verified only when it is read to
     # its end, so these files probe what happens when a corrupted header makes numpy stop early
     big = [
-        {"fmt": "coo", "shape": [30, 40], "axes": None, "pattern": "full", "dtype": "int64", "fill": "0", "seed": 7},
-        {"fmt": "gcxs", "shape": [30, 40], "axes": [0], "pattern": "full", "dtype": "int64", "fill": "0", "seed": 8},
+        {"fmt": "coo", "shape": [24, 25], "axes": None, "pattern": "full", "dtype": "int64", "fill": "0", "seed": 7},
+        {"fmt": "gcxs", "shape": [24, 25], "axes": [0], "pattern": "full", "dtype": "int64", "fill": "0", "seed": 8},
         {"fmt": "coo", "shape": [40, 50], "axes": None, "pattern": "partial", "dtype": "int64", "fill": "0", "seed": 9},
     ]
     kinds = ["trunc", "xorff", "xor01"]
@@ -548,6 +573,7 @@ def campaign(build, tier, seed, report, budget=1):
                 if o.get("orig_after_write") is False:
                     viol.append(mkviol(spec, op, 4, fin, o, "a write into the deep copy changed the original"))
 
+    verdicts = {}
     for name, jfn, ctype, lits, idx in (
             ("c14_npz", "judge_npz", "jarr * outcome", npz_l, npz_i),
             ("c14_pickle", "judge_pickle", "jarr * outcome", pk_l, pk_i),
@@ -555,8 +581,10 @@ def campaign(build, tier, seed, report, budget=1):
         for ci, code in build.judge(name, IMPORTS, ctype, jfn, lits, chunk=400):
             si, op = idx[ci]
             viol.append(mkviol(specs[si], op, code, res[si]["in"], res[si]["ops"][op]))
+            verdicts[(json.dumps(specs[si], sort_keys=True), op)] = code
             tag("verdict", name, code)
 
+    phase = {"roundtrips_s": round(time.time() - t0, 1)}
     # ---------------------------------------------------------------- Numba
     nres = vlib.run_impl("props.c14", "impl_numba", nb_specs, workers=12, per_case_timeout=90.0)
     nb_l, nb_i = [], []
@@ -568,13 +596,24 @@ def campaign(build, tier, seed, report, budget=1):
         tag("numba", spec["dtype"], f"{len(spec['shape'])}d", "idx" + str(r["bits"]) + ("s" if r["signed"] else "u"))
         for op, o in r["ops"].items():
             evaluations += 1
-            nb_l.append(vpair(jlit(r["in"]), vpair(vZ(r["bits"]), vbool(r["signed"])), olit(o)))
+            nb_l.append(vpair(jlit(r["in"]), vpair(vZ(r["bits"]), vbool(r["signed"])), vbool(op == "numba_construct"), olit(o)))
             nb_i.append((si, op))
-    for ci, code in build.judge("c14_numba", IMPORTS, "jarr * (Z * bool) * outcome", "judge_numba", nb_l, chunk=400):
+    for ci, code in build.judge("c14_numba", IMPORTS, "jarr * (Z * bool) * bool * outcome", "judge_numba", nb_l, chunk=400):
         si, op = nb_i[ci]
         viol.append(mkviol(nb_specs[si], op, code, nres[si]["in"], nres[si]["ops"][op]))
+        verdicts[(json.dumps(nb_specs[si], sort_keys=True), op)] = code
         tag("verdict", "c14_numba", code)
+    cov["refuted_witnesses_replayed"] = [
+        {"theorem": name, "operation": op, "expected_verdict": code,
+         "observed_verdict": verdicts.get((json.dumps(spec, sort_keys=True), op), 0),
+         "reproduced": verdicts.get((json.dumps(spec, sort_keys=True), op), 0) == code}
+        for name, spec, op, code in WITNESSES]
+    for w in cov["refuted_witnesses_replayed"]:
+        if not w["reproduced"]:
+            report["notes"].append(f"witness of {w['theorem']} did not reproduce on the implementation "
+                                   f"(verdict {w['observed_verdict']}, expected {w['expected_verdict']})")
 
+    phase["numba_s"] = round(time.time() - t0 - phase["roundtrips_s"], 1)
     # ---------------------------------------------------------------- damaged files
     fcases = []
     for fi, (spec, comp, kinds, parts) in enumerate(files):
@@ -642,6 +681,8 @@ def campaign(build, tier, seed, report, budget=1):
                       for i in (0, len(specs) // 3, len(specs) - 1)]
     cov["differential_only"] = ["dtype of the result", "pickle byte streams (protocols 0-5)", "Numba native representation"]
     cov["campaign_wall_s"] = round(time.time() - t0, 1)
+    phase["faults_s"] = round(cov["campaign_wall_s"] - phase["roundtrips_s"] - phase["numba_s"], 1)
+    cov["phase_wall_s"] = phase
     report["notes"].append("loaded GCXS arrays carry numpy integers in .shape / .compressed_axes (equal values; not compared by type)")
     return viol
 
